@@ -115,3 +115,124 @@ Theorem C10_equalise_inst :
     @predict_draw R (RNum GaussInst.PhiK GaussInst.PhiinvK) beta teams <= @predict_draw R (RNum GaussInst.PhiK GaussInst.PhiinvK) beta teams'.
 Proof. exact (C10_equalise GaussInst.PhiK GaussInst.PhiinvK GaussInst.GaussCDF_inst). Qed.
 Print Assumptions C10_equalise_inst.
+
+(** ** Range of [predict_draw] on the doubles the code computes (binary64, no rounding slack)
+
+    On Flocq's binary64 with the IEEE 754 round-to-nearest-even operations ([FloatInst.B64Num]):
+    [predict_draw beta teams] is a FINITE double, its real value is >= 0, and with three or more
+    teams it is <= 1.  Premises: libm's erfc returns, on every finite argument, a finite double
+    with value in [0,2]; 2 <= number of teams <= 2^12 = 4096; the two arguments handed to the
+    normal CDF for every ordered pair of distinct positions are finite (no overflow, no NaN).
+    Nothing is assumed about exp, [x ** 2], inv_cdf (hence about the draw margin, beyond the
+    finiteness of the quotients) or the accuracy of sqrt.  All other finiteness is derived.
+
+    The upper bound has no slack at all: the n(n-1) terms are differences of two CDF values, each
+    a double in [-1,1]; CPython's [sum()] is Neumaier's compensated summation ([py_sum]); its
+    running sum s is in [-k,k] after k terms (monotone rounding), each compensation term is the
+    EXACT rounding error of the addition (Fast2Sum, Dekker; Flocq's [Fast2Sum_correct]), so
+    s + c differs from the exact real sum T, |T| <= k, by at most 2 u^2 k^3 (u = 2^-53), which for
+    k <= 2^25 is below a quarter ulp of k: the final [fl(s + c)] cannot exceed the double k =
+    n(n-1), the denominator; hence |sum| / den rounds to at most 1.  (The bound on the number of
+    teams is what this error analysis needs; 1.0 is attained, see the example.)
+
+    NOT covered: the two-team upper bound (with two teams the code divides the sum of the two
+    terms by 1, so the result is <= 1 only because the two terms are about 1/2 each for the real
+    draw margin; that depends on the accuracy of inv_cdf and erfc, not on rounding alone). *)
+From Coq Require Import ZArith.
+From Flocq Require IEEE754.BinarySingleNaN IEEE754.Binary IEEE754.Bits.
+From OSV Require Order FloatInst.
+From OSV.Lemmas Require FloatRangeL.
+
+Theorem C10_predict_draw_range_binary64 :
+  forall (f_exp f_erfc f_pow2 f_icdf : Bits.binary64 -> Bits.binary64),
+  (forall x : Bits.binary64, Binary.is_finite 53%Z 1024%Z x = true ->
+     Binary.is_finite 53%Z 1024%Z (f_erfc x) = true /\ 0 <= Binary.B2R 53%Z 1024%Z (f_erfc x) <= 2) ->
+  forall (beta : Bits.binary64) (teams : list (list (rating Bits.binary64))),
+  (2 <= length teams)%nat -> (Z.of_nat (length teams) <= 2 ^ 12)%Z ->
+  (forall (ro : list (rating Bits.binary64) * list (list (rating Bits.binary64))) (tb : list (rating Bits.binary64)),
+     In ro (Order.rows teams) -> In tb (snd ro) ->
+     Binary.is_finite 53%Z 1024%Z
+       (@fdiv Bits.binary64 (FloatInst.B64Num f_exp f_erfc f_pow2 f_icdf)
+          (@fadd Bits.binary64 (FloatInst.B64Num f_exp f_erfc f_pow2 f_icdf)
+             (@fsub Bits.binary64 (FloatInst.B64Num f_exp f_erfc f_pow2 f_icdf)
+                (@draw_margin Bits.binary64 (FloatInst.B64Num f_exp f_erfc f_pow2 f_icdf) beta teams)
+                (fst (@agg Bits.binary64 (FloatInst.B64Num f_exp f_erfc f_pow2 f_icdf) (fst ro))))
+             (fst (@agg Bits.binary64 (FloatInst.B64Num f_exp f_erfc f_pow2 f_icdf) tb)))
+          (@pair_scale Bits.binary64 (FloatInst.B64Num f_exp f_erfc f_pow2 f_icdf) beta (length teams)
+             (@agg Bits.binary64 (FloatInst.B64Num f_exp f_erfc f_pow2 f_icdf) (fst ro))
+             (@agg Bits.binary64 (FloatInst.B64Num f_exp f_erfc f_pow2 f_icdf) tb))) = true
+     /\ Binary.is_finite 53%Z 1024%Z
+          (@fdiv Bits.binary64 (FloatInst.B64Num f_exp f_erfc f_pow2 f_icdf)
+             (@fsub Bits.binary64 (FloatInst.B64Num f_exp f_erfc f_pow2 f_icdf)
+                (@fsub Bits.binary64 (FloatInst.B64Num f_exp f_erfc f_pow2 f_icdf)
+                   (fst (@agg Bits.binary64 (FloatInst.B64Num f_exp f_erfc f_pow2 f_icdf) (fst ro)))
+                   (fst (@agg Bits.binary64 (FloatInst.B64Num f_exp f_erfc f_pow2 f_icdf) tb)))
+                (@draw_margin Bits.binary64 (FloatInst.B64Num f_exp f_erfc f_pow2 f_icdf) beta teams))
+             (@pair_scale Bits.binary64 (FloatInst.B64Num f_exp f_erfc f_pow2 f_icdf) beta (length teams)
+                (@agg Bits.binary64 (FloatInst.B64Num f_exp f_erfc f_pow2 f_icdf) (fst ro))
+                (@agg Bits.binary64 (FloatInst.B64Num f_exp f_erfc f_pow2 f_icdf) tb))) = true) ->
+  Binary.is_finite 53%Z 1024%Z
+    (@predict_draw Bits.binary64 (FloatInst.B64Num f_exp f_erfc f_pow2 f_icdf) beta teams) = true
+  /\ 0 <= Binary.B2R 53%Z 1024%Z
+            (@predict_draw Bits.binary64 (FloatInst.B64Num f_exp f_erfc f_pow2 f_icdf) beta teams)
+  /\ ((3 <= length teams)%nat ->
+      Binary.B2R 53%Z 1024%Z
+        (@predict_draw Bits.binary64 (FloatInst.B64Num f_exp f_erfc f_pow2 f_icdf) beta teams) <= 1).
+Proof. exact FloatRangeL.predict_draw_range_b64. Qed.
+Print Assumptions C10_predict_draw_range_binary64.
+
+(** non-vacuity.  Stand-ins for the libm parameters: erfc := the step function 2 / 1 / 0 on
+    negative / zero / positive arguments (finite, in [0,2], as the premise requires; so the CDF is
+    the step 0 / 0.5 / 1), [x ** 2 := x * x], inv_cdf := identity (the draw margin is then
+    sqrt(4) * beta * 0.625 for four players); exp is not used.  beta = 25/6; teams
+    [(25.0, 25/3)], [(30.5, 7.25)], [(20.0, 5.0); (7.0, 4.0)] (aggregate means 25, 30.5, 27): the
+    hypotheses hold and the computed value is 4/6 rounded.  With three copies of the first team
+    every one of the six terms is 1 and the result is exactly 1.0 (bits 0x3FF0000000000000):
+    the bound is attained. *)
+Example C10_predict_draw_range_binary64_ex :
+  let N := FloatInst.B64Num (fun x => x)
+             (fun x => match Bits.b64_compare x (Binary.B754_zero 53%Z 1024%Z false) with
+                       | Some Lt => FloatInst.b64_of_Z 2 | Some Gt => FloatInst.b64_of_Z 0
+                       | _ => FloatInst.b64_of_Z 1 end)
+             (fun x => Bits.b64_mult BinarySingleNaN.mode_NE x x) (fun x => x) in
+  let t1 := [mkRating (Bits.b64_of_bits 4627730092099895296%Z) (Bits.b64_of_bits 4620880867666602667%Z) 0%Z NmNone] in
+  let t2 := [mkRating (Bits.b64_of_bits 4629278204471803904%Z) (Bits.b64_of_bits 4619848792751996928%Z) 1%Z NmNone] in
+  let t3 := [mkRating (FloatInst.b64_of_Z 20) (FloatInst.b64_of_Z 5) 2%Z NmNone;
+             mkRating (FloatInst.b64_of_Z 7) (FloatInst.b64_of_Z 4) 3%Z NmNone] in
+  let beta := Bits.b64_of_bits 4616377268039232171%Z in
+  (Binary.is_finite 53%Z 1024%Z (@predict_draw Bits.binary64 N beta [t1; t2; t3]) = true
+   /\ 0 <= Binary.B2R 53%Z 1024%Z (@predict_draw Bits.binary64 N beta [t1; t2; t3]) <= 1)
+  /\ Bits.bits_of_b64 (@predict_draw Bits.binary64 N beta [t1; t2; t3]) = 4604180019048437077%Z
+  /\ (Binary.is_finite 53%Z 1024%Z (@predict_draw Bits.binary64 N beta [t1; t1; t1]) = true
+      /\ 0 <= Binary.B2R 53%Z 1024%Z (@predict_draw Bits.binary64 N beta [t1; t1; t1]) <= 1)
+  /\ Bits.bits_of_b64 (@predict_draw Bits.binary64 N beta [t1; t1; t1]) = 4607182418800017408%Z.
+Proof.
+  intros N t1 t2 t3 beta.
+  assert (H1 : Binary.is_finite 53%Z 1024%Z (@predict_draw Bits.binary64 N beta [t1; t2; t3]) = true
+               /\ 0 <= Binary.B2R 53%Z 1024%Z (@predict_draw Bits.binary64 N beta [t1; t2; t3])
+               /\ ((3 <= length [t1; t2; t3])%nat ->
+                   Binary.B2R 53%Z 1024%Z (@predict_draw Bits.binary64 N beta [t1; t2; t3]) <= 1)).
+  { apply C10_predict_draw_range_binary64.
+    - exact FloatRangeL.ex_erfc_ok.
+    - repeat constructor.
+    - vm_compute. intros H; discriminate H.
+    - intros ro tb Hro Htb. cbv [Order.rows Order.rows_aux rev app In] in Hro.
+      destruct Hro as [<-|[<-|[<-|[]]]]; cbv [snd In] in Htb; destruct Htb as [<-|[<-|[]]];
+        split; vm_compute; reflexivity. }
+  assert (H2 : Binary.is_finite 53%Z 1024%Z (@predict_draw Bits.binary64 N beta [t1; t1; t1]) = true
+               /\ 0 <= Binary.B2R 53%Z 1024%Z (@predict_draw Bits.binary64 N beta [t1; t1; t1])
+               /\ ((3 <= length [t1; t1; t1])%nat ->
+                   Binary.B2R 53%Z 1024%Z (@predict_draw Bits.binary64 N beta [t1; t1; t1]) <= 1)).
+  { apply C10_predict_draw_range_binary64.
+    - exact FloatRangeL.ex_erfc_ok.
+    - repeat constructor.
+    - vm_compute. intros H; discriminate H.
+    - intros ro tb Hro Htb. cbv [Order.rows Order.rows_aux rev app In] in Hro.
+      destruct Hro as [<-|[<-|[<-|[]]]]; cbv [snd In] in Htb; destruct Htb as [<-|[<-|[]]];
+        split; vm_compute; reflexivity. }
+  destruct H1 as (F1 & L1 & U1). destruct H2 as (F2 & L2 & U2).
+  split; [split; [exact F1 | split; [exact L1 | apply U1; repeat constructor]]|].
+  split; [vm_compute; reflexivity|].
+  split; [split; [exact F2 | split; [exact L2 | apply U2; repeat constructor]]|].
+  vm_compute. reflexivity.
+Qed.
